@@ -15,6 +15,7 @@ import (
 	"runtime"
 	"runtime/debug"
 	"sort"
+	"strings"
 	"sync"
 	"syscall"
 	"unsafe"
@@ -50,6 +51,11 @@ func newArena() *arena {
 	}
 	base := uintptr(unsafe.Pointer(&mem[0]))
 	return &arena{mem: mem, data: base + page, end: base + uintptr(total-page)}
+}
+
+// inGuard: addr lies in the leading or the trailing guard page.
+func (a *arena) inGuard(addr uintptr) bool {
+	return (addr >= a.data-page && addr < a.data) || (addr >= a.end && addr < a.end+page)
 }
 
 // atEnd returns a slice of n floats ending exactly at the trailing guard page.
@@ -105,6 +111,10 @@ func patterns() []pattern {
 		{"tiny-squares-underflow", set(func(i int) (float32, float32) { return 1e-20, 3e-20 }), true},
 		{"large-squares-near-max", set(func(i int) (float32, float32) { return 1e19, -0.5e19 }), true},
 		{"huge-squares-overflow", set(func(i int) (float32, float32) { return 3e19, 1e19 }), true},
+		// moderate magnitudes: every component square, both squared norms, both norms and their product are ordinary
+		// float32 values - only the PRODUCT OF THE SQUARED NORMS leaves the range (the portable kernel never forms it)
+		{"norm-product-overflows", set(func(i int) (float32, float32) { return 1e10 * float32(1+i%3), 2e10 * float32(1+(i*5)%4) }), true},
+		{"norm-product-underflows", set(func(i int) (float32, float32) { return 1e-12 * float32(1+i%3), 3e-12 * float32(1+(i*5)%4) }), true},
 		{"mixed-tiny-huge", set(func(i int) (float32, float32) {
 			if i%2 == 0 {
 				return 1e-20, 3e19
@@ -222,6 +232,22 @@ func (w *worker) check(a, b []float32, layout string, aoff, boff int, p pattern)
 			w.add("fault:native:"+m.name, fmt.Sprintf("native %s faulted: %v", m.name, nf), nil)
 			continue
 		}
+		if strings.HasPrefix(p.name, "norm-product-") {
+			// the portable kernel is the reference of the property and has to be right by itself where all its own
+			// intermediate values are ordinary: close to the float64 value, zero (up to rounding) between a vector and
+			// itself, not negative beyond rounding
+			rp := map[string]interface{}{"impl": "native", "metric": m.name, "len": n, "layout": layout, "a_offset": aoff, "b_offset": boff, "pattern": p.name}
+			lim := 4 * float64(n) * eps
+			if m.name != "cosine" {
+				lim *= math.Abs(ref)
+			}
+			if d := math.Abs(float64(nat) - ref); !(d <= lim) {
+				w.add(fmt.Sprintf("portable-kernel-off-reference:%s:%s", m.name, p.name), fmt.Sprintf("portable %s = %v, float64 reference %v (len=%d, pattern %s)", m.name, nat, ref, n, p.name), rp)
+			}
+			if self, sf := call(func() float32 { return m.call(native, a, a) }); sf == nil && !(math.Abs(float64(self)) <= float64(n)*eps) {
+				w.add(fmt.Sprintf("self-distance-nonzero:native:%s:%s", m.name, p.name), fmt.Sprintf("portable %s d(a,a) = %v (len=%d, pattern %s)", m.name, self, n, p.name), rp)
+			}
+		}
 		for _, in := range []string{"sse", "avx"} {
 			impl := w.impls[in]
 			rp := map[string]interface{}{"impl": in, "metric": m.name, "len": n, "layout": layout, "a_offset": aoff, "b_offset": boff, "pattern": p.name}
@@ -236,6 +262,11 @@ func (w *worker) check(a, b []float32, layout string, aoff, boff int, p pattern)
 					if al == "16-byte-aligned" {
 						al = "operand-not-32-byte-aligned"
 					}
+				}
+				// what kind of fault: an access INSIDE one of the guard pages around the vectors is a read outside the
+				// vectors (an alignment fault of an aligned-load instruction carries no such address)
+				if fa, ok := f.(interface{ Addr() uintptr }); ok && (w.A.inGuard(fa.Addr()) || w.B.inGuard(fa.Addr())) {
+					al = "reads-outside-the-vectors"
 				}
 				w.add(fmt.Sprintf("fault:%s:%s:%s", in, m.name, al), fmt.Sprintf("%s %s faulted (len=%d, layout %s, a at %%64=%d, b at %%64=%d): %v", in, m.name, n, layout, uintptr(unsafe.Pointer(&a[0]))%64, uintptr(unsafe.Pointer(&b[0]))%64, f), rp)
 				continue
